@@ -252,6 +252,18 @@ func c27Table(c *core.Ctx) []c27Row {
 				}
 			}
 		}
+		// resumption must not bypass authentication: connection 1 (config X) fills a shared session cache,
+		// connection 2 (config Y, verification enabled) goes through the same cache to the same server
+		for _, cell := range []c27Cell{
+			{v12, "ecdhe_ecdsa", 0xc02b, tlspair.P256}, {v12, "rsa", 0x002f, tlspair.RSA2048}, {v13, "tls13", 0x1301, tlspair.P256},
+			{v10, "ecdhe_ecdsa", 0xc009, tlspair.P256}, {v13, "tls13", 0x1302, tlspair.Ed25519}, {v11, "ecdhe_rsa", 0xc013, tlspair.RSA2048},
+		} {
+			for _, v := range resumeVariants {
+				for _, peer := range []string{"zz", "zg"} {
+					add(c27Row{Peer: peer, Vers: cell.vers, KX: cell.kx, Suite: cell.suite, Kind: cell.kind, Scenario: "resume_bypass", Cred: v.Name})
+				}
+			}
+		}
 	}
 	gr := c.GlobalRng("rows")
 	for i := range rows {
@@ -288,7 +300,188 @@ func clientLeaf(cred, kind string) *tlspair.Leaf {
 	return nil
 }
 
+// resumeVariant: X = configuration of the connection that fills the cache, Y = the verifying configuration that reuses it.
+type resumeVariant struct {
+	Name    string
+	Server  string // credential scenario of the server
+	XSkip   bool   // X runs with InsecureSkipVerify
+	YFuture bool   // Y's Config.Time is past the leaf's NotAfter
+	YName   string // Y's ServerName ("" = unchanged)
+	AnyKey  bool   // the shared cache answers every key with the stored session (a sloppy cache implementation)
+	Expect  string // outcome of connection 2: ok | fail | "" (recorded)
+}
+
+var resumeVariants = []resumeVariant{
+	{Name: "control:X_verifies,Y_verifies,good_server", Server: "trusted", Expect: "ok"},
+	{Name: "control:X_skips,Y_verifies,good_server", Server: "trusted", XSkip: true, Expect: "ok"},
+	{Name: "X_skips,untrusted_server,Y_verifies", Server: "untrusted_root", XSkip: true, Expect: "fail"},
+	{Name: "X_skips,expired_server,Y_verifies", Server: "expired", XSkip: true, Expect: "fail"},
+	{Name: "X_skips,wrong_name_server,Y_verifies", Server: "wrong_name", XSkip: true, Expect: "fail"},
+	{Name: "X_skips,missing_intermediate,Y_verifies", Server: "missing_intermediate", XSkip: true, Expect: "fail"},
+	{Name: "X_skips,bad_cert_signature,Y_verifies", Server: "bad_cert_signature", XSkip: true, Expect: "fail"},
+	{Name: "X_verifies,Y_time_past_NotAfter", Server: "trusted", YFuture: true, Expect: "fail"},
+	{Name: "X_verifies,Y_other_server_name", Server: "trusted", YName: "other.test", Expect: "fail"},
+	{Name: "X_verifies,Y_other_server_name,any_key_cache", Server: "trusted", YName: "other.test", AnyKey: true, Expect: ""},
+	{Name: "X_verifies,Y_alt_san_name,any_key_cache", Server: "trusted", YName: "alt.server.test", AnyKey: true, Expect: "ok"},
+}
+
+// anyKeyCache wraps a mapCache and answers every key with the stored session.
+type anyKeyCache struct{ *mapCache }
+
+func (a anyKeyCache) Get(string) (*ztls.ClientSessionState, bool) {
+	s := a.mapCache.only()
+	return s, s != nil
+}
+
+func (row c27Row) runResume(c *core.Ctx) {
+	p, e := tlspair.Get(), getExtra()
+	now := tlspair.Now
+	var v resumeVariant
+	for _, x := range resumeVariants {
+		if x.Name == row.Cred {
+			v = x
+		}
+	}
+	leaf := p.Server[row.Kind]
+	switch v.Server {
+	case "untrusted_root":
+		leaf = p.Untrusted[row.Kind]
+	case "expired":
+		leaf = p.Expired[row.Kind]
+	case "wrong_name":
+		leaf = p.WrongName[row.Kind]
+	case "missing_intermediate":
+		leaf = e.NoInterServer[row.Kind]
+	case "bad_cert_signature":
+		leaf = e.BadSigServer[row.Kind]
+	}
+	suites := []uint16{row.Suite}
+	var zs *ztls.Config
+	var gs *gotls.Config
+	if row.Peer == "zg" {
+		gs = &gotls.Config{Time: func() time.Time { return now }, Rand: tlspair.NewDetRand(row.Seed ^ 0xabcdef), MinVersion: row.Vers, MaxVersion: row.Vers,
+			Certificates: []gotls.Certificate{leaf.Go()}}
+		if row.Vers != v13 {
+			gs.CipherSuites = suites
+		}
+	} else {
+		zs = &ztls.Config{Time: func() time.Time { return now }, Rand: tlspair.NewDetRand(row.Seed ^ 0xabcdef), MinVersion: row.Vers, MaxVersion: row.Vers,
+			Certificates: []ztls.Certificate{leaf.Z()}}
+		if row.Vers != v13 {
+			zs.CipherSuites = suites
+		}
+	}
+	base := newMapCache()
+	var cache ztls.ClientSessionCache = base
+	if v.AnyKey {
+		cache = anyKeyCache{base}
+	}
+	x := tlspair.BaseClient(row.Seed)
+	x.MinVersion, x.MaxVersion = row.Vers, row.Vers
+	x.CipherSuites = suites
+	x.InsecureSkipVerify = v.XSkip
+	x.ClientSessionCache = cache
+	runPair := func(cc *ztls.Config) *tlspair.Result {
+		if gs != nil {
+			return tlspair.RunZG(cc, gs, tlspair.Options{})
+		}
+		return tlspair.RunZZ(cc, zs, tlspair.Options{})
+	}
+	label := "resume_bypass:" + v.Name
+	cellKey := fmt.Sprintf("%s:%s:%s", row.Peer, vname(row.Vers), row.KX)
+	r1 := runPair(x)
+	c.Eval(1)
+	cs1, ss1 := clientSide(r1), serverSide(r1)
+	obs := map[string]any{"row": row, "variant": v, "conn1_client": cs1.String(), "conn1_server": ss1.String()}
+	if r1.TimedOut {
+		r1.Close()
+		noteWatchdog(c, "C27 "+row.ID)
+		return
+	}
+	if !cs1.OK || !ss1.OK {
+		r1.Close()
+		c.Violation(fmt.Sprintf("good_credentials_rejected:%s:conn1:%s:c=%s:s=%s", label, cellKey, normErr(cs1.Err), normErr(ss1.Err)), "connection 1 (the one that fills the cache) must complete", row.ID, obs)
+		return
+	}
+	if err := r1.PingPong([]byte("fill-cache"), []byte("ok")); err != nil {
+		r1.Close()
+		c.Violation("undecided:conn1_data_exchange_failed:"+cellKey, err.Error(), row.ID, obs)
+		return
+	}
+	r1.Close()
+	if base.only() == nil {
+		c.Violation("undecided:no_session_cached_by_conn1:"+cellKey, "tickets are enabled on both sides but the shared cache is empty after connection 1", row.ID, obs)
+		return
+	}
+	// Y: the documented way to derive a configuration — Clone shares the session cache
+	y := x.Clone()
+	y.InsecureSkipVerify = false
+	y.Rand = tlspair.NewDetRand(row.Seed ^ 0x1234567)
+	if v.YFuture {
+		y.Time = func() time.Time { return now.Add(2 * 365 * 24 * time.Hour) }
+	}
+	if v.YName != "" {
+		y.ServerName = v.YName
+	}
+	r2 := runPair(y)
+	defer r2.Close()
+	c.Eval(1)
+	cs2, ss2 := clientSide(r2), serverSide(r2)
+	nver := 0
+	if r2.CZ != nil {
+		nver = len(r2.CZ.ConnectionState().VerifiedChains)
+	}
+	offered := false
+	if ch, ok := firstClientHello(r2.Tap); ok && ch.OK {
+		offered = len(ch.Ticket) > 0 || len(ch.PSKIdentities) > 0
+	}
+	obs["conn2_client"], obs["conn2_server"] = cs2.String(), ss2.String()
+	obs["conn2_verified_chains"], obs["conn2_offered_ticket"] = nver, offered
+	if r2.TimedOut {
+		noteWatchdog(c, "C27 "+row.ID)
+		return
+	}
+	outcome := "fail"
+	if cs2.OK && cs2.Complete {
+		outcome = "ok"
+	}
+	c.Count("outcome:"+label+":"+outcome, 1)
+	if offered {
+		c.Count("resume_offered:"+v.Name, 1)
+	}
+	if cs2.Resumed {
+		c.Count("resumed:"+v.Name, 1)
+	}
+	switch v.Expect {
+	case "":
+		c.Count("recorded_only:"+label+":"+outcome, 1)
+		return
+	case "ok":
+		if !(cs2.OK && ss2.OK && cs2.Complete && ss2.Complete) {
+			c.Violation(fmt.Sprintf("good_credentials_rejected:%s:%s:c=%s:s=%s", label, cellKey, normErr(cs2.Err), normErr(ss2.Err)),
+				fmt.Sprintf("connection 2 must complete; client %v server %v", cs2.Err, ss2.Err), row.ID, obs)
+			return
+		}
+	case "fail":
+		if cs2.OK || cs2.Complete {
+			c.Violation(fmt.Sprintf("bad_credentials_accepted:%s:%s:%s", label, cellKey, row.Kind),
+				fmt.Sprintf("a verifying client completed against a server whose chain does not verify for its name/time/roots (DidResume=%v, verified chains=%d, ticket offered=%v)", cs2.Resumed, nver, offered), row.ID, obs)
+			return
+		}
+		if !localError(cs2.Err) {
+			c.Violation("undecided:refusal_not_raised_by_detector:"+label+":"+cellKey, fmt.Sprintf("client error %v, server error %v", cs2.Err, ss2.Err), row.ID, obs)
+			return
+		}
+	}
+	c.Nontrivial(row.sig())
+	c.Count("cell:"+cellKey, 1)
+}
+
 func (row c27Row) run(c *core.Ctx) {
+	if row.Scenario == "resume_bypass" {
+		row.runResume(c)
+		return
+	}
 	p, e := tlspair.Get(), getExtra()
 	now := tlspair.Now
 	isClientAuth := row.Scenario == "client_auth"
